@@ -253,6 +253,17 @@ theorem setItem_nat (t : List Nat) (j : Nat) (v : Nat) (h : j < t.length) :
   rw [if_pos ⟨by omega, by simp; omega⟩]
   simp [List.map_set]
 
+theorem setAt_nat (t : List Nat) (j : Nat) (v : Nat) :
+    setAt (t.map Int.ofNat) (j : Int) (v : Int) = (t.set j v).map Int.ofNat := by
+  unfold setAt
+  simp [List.map_set]
+
+theorem replicate_nat (n : Nat) (N : Int) (hN : N = (n : Int)) (m : Nat) :
+    Py.replicate N (m : Int) = (List.replicate n m).map Int.ofNat := by
+  subst hN
+  unfold Py.replicate
+  rw [Int.toNat_natCast, List.map_replicate]; rfl
+
 /-- one pass of `for k in range(m - 1): skip[pattern[k]] = m - k - 1` (the model, one step) -/
 def skipStep (pat : Bytes) (sk : List Nat) (k : Nat) : List Nat :=
   match pat[k]? with
@@ -275,6 +286,20 @@ theorem skipLoop_tie (pat : Bytes) (G : List Int → Int → R (List Int))
     rw [List.map_cons, List.foldlM_cons, show Int.ofNat k = (k : Int) from rfl,
       hG sk k hs (hl k (List.mem_cons_self ..)), ok_bind, List.foldl_cons]
     exact ih _ (by rw [skipStep_length, hs]) (fun k' hk' => hl k' (List.mem_cons_of_mem _ hk'))
+
+theorem intAt_nat (t : List Nat) (j s : Nat) (h : t[j]? = some s) : intAt (t.map Int.ofNat) (j : Int) = (s : Int) := by
+  unfold intAt
+  simp [List.getD_eq_getElem?_getD, h]
+
+theorem foldl_skipStep_length (pat : Bytes) (l : List Nat) : ∀ sk : List Nat,
+    (l.foldl (skipStep pat) sk).length = sk.length := by
+  induction l with
+  | nil => intro sk; rfl
+  | cons k l ih => intro sk; rw [List.foldl_cons, ih, skipStep_length]
+
+theorem bmhSkip_length (pat : Bytes) : (bmhSkip pat).length = 256 := by
+  show ((List.range (pat.length - 1)).foldl (skipStep pat) (List.replicate 256 pat.length)).length = 256
+  rw [foldl_skipStep_length, List.length_replicate]
 
 theorem bmhSkip_eq (pat : Bytes) :
     bmhSkip pat = (List.range (pat.length - 1)).foldl (skipStep pat) (List.replicate 256 pat.length) := rfl
